@@ -363,6 +363,14 @@ func init() {
 		reg(&explore.Suite{Name: fmt.Sprintf("laglease3-d%d", d), Cfg: sim.Config{Voters: 3, Timed: true}, Seed: lagging, Monitors: leaseMonitors,
 			Budget: sim.Budget{Writes: 1, LeaseReads: 2, Lags: 1, Steps: 8, Reorders: -1, MsgSteps: 1, Deviations: d}})
 	}
+	// S-cutleader with snapshots and a spare (C09/C17): the cut-off leader n0 has
+	// compacted its log; a member it adds now can only be served by snapshot.
+	cutSnap := append(append([]sim.Event{}, seedLeader3...), sim.MustParse("write n0", "adv", "write n0", "adv", "write n0", "adv", "cut n0 a=1", "cut n0 a=2",
+		"adv", "adv", "adv", "adv", "adv", "adv", "adv", "adv", "adv", "adv", "adv", "adv")...)
+	for d := 0; d <= 4; d++ {
+		reg(&explore.Suite{Name: fmt.Sprintf("nvsnaplease4-d%d", d), Cfg: sim.Config{Voters: 3, Spares: 1, Timed: true, SnapAt: 2}, Seed: cutSnap, Monitors: leaseMonitors,
+			Budget: sim.Budget{Writes: 1, LeaseReads: 2, Members: 1, Lags: 1, Steps: 8, Reorders: -1, Deviations: d}})
+	}
 	// S-nonvoters, timed (C17): leader n0 keeps only the two non-voters; n1 leads
 	// term 2 on the other side; four intervals have passed.
 	nvLease := append(append([]sim.Event{}, seedNonVoters...), sim.MustParse("rt 1>2:AE#1", "adv", "adv", "adv", "adv")...)
